@@ -3,6 +3,7 @@ package sim
 import (
 	"errors"
 	"fmt"
+	"math"
 	"sort"
 	"time"
 
@@ -23,6 +24,8 @@ func ToGo(v plan.Value) interface{} {
 		return v.I
 	case "float":
 		return v.F
+	case "nan":
+		return math.NaN()
 	case "string":
 		return v.S
 	case "bool":
@@ -108,6 +111,9 @@ func FromGo(x interface{}) plan.Value {
 	case int:
 		return plan.GoInt(int64(x))
 	case float64:
+		if math.IsNaN(x) {
+			return plan.Value{T: "nan"}
+		}
 		return plan.Float(x)
 	case string:
 		return plan.Str(x)
